@@ -5,6 +5,11 @@
 #include "hcommon.h"
 extern "C" {
 #include "spqlios/reim/reim_fft.h"
+extern "C" {
+#include "spqlios/q120/q120_common.h"
+#include "spqlios/q120/q120_ntt.h"
+#include "spqlios/q120/q120_ntt_private.h"
+}
 }
 
 typedef __int128 i128;
@@ -46,6 +51,13 @@ struct ModSnap {
       h = h * 31 + blk(m->mod.fft64.p_reim_to_znx);
       h = h * 31 + blk(m->mod.fft64.p_addmul);
       h = h * 31 + blk(m->mod.fft64.mul_fft);
+    } else {
+      for (q120_ntt_precomp* t : {m->mod.q120.p_ntt, m->mod.q120.p_intt}) {
+        if (!t) continue;
+        h = h * 31 + fnv(t, sizeof(*t));
+        h = h * 31 + blk(t->level_metadata);
+        h = h * 31 + blk(t->powomega);
+      }
     }
     return h;
   }
@@ -137,7 +149,7 @@ static void nop_lines(Out& out, const char* fmt, ...) {
 STREAM(md_prod) {
   std::vector<uint64_t> dims = thorough ? std::vector<uint64_t>{2, 4, 8, 16, 32, 64, 128, 256, 512, 1024, 2048, 4096}
                                         : std::vector<uint64_t>{2, 4, 8, 16, 32, 64, 256, 1024};
-  if (thorough) { dims.push_back(16384); dims.push_back(65536); }
+  if (thorough) { dims.push_back(16384); dims.push_back(65536); } else dims.push_back(8192);  // m = 4096: the recursive FFT path
   for (uint64_t n : dims)
     for (int mask = 0; mask < 2; mask++)
       for (int cls = 0; cls < 7; cls++) {
@@ -342,7 +354,7 @@ STREAM(md_vmp) {
 // ------------------------------------------------------------------------------------------------------
 // C03 at module level: NTT120 vec_znx_dft -> vec_znx_idft is the identity on int64 (zero-extend / truncate)
 STREAM(md_ntt) {
-  std::vector<uint64_t> dims = thorough ? std::vector<uint64_t>{1, 2, 4, 8, 16, 64, 256, 1024, 4096, 65536} : std::vector<uint64_t>{1, 2, 4, 8, 64, 1024};
+  std::vector<uint64_t> dims = thorough ? std::vector<uint64_t>{1, 2, 4, 8, 16, 64, 256, 1024, 4096, 65536} : std::vector<uint64_t>{1, 2, 4, 8, 64, 1024, 4096};
   for (uint64_t n : dims)
     for (int cls = 0; cls < 4; cls++)
       for (int variant = 0; variant < 2; variant++) {
@@ -353,6 +365,7 @@ STREAM(md_ntt) {
         Buf ba(a_size * a_sl * 8, 8 * rng.below(4), rng, 2);
         memcpy(ba.p, av.data(), a_size * a_sl * 8);
         Buf dft(n * 4 * 8 * dsz, 8 * rng.below(4), rng, 2);
+        ModSnap nsnap(mod);
         vec_znx_dft(mod, (VEC_ZNX_DFT*)dft.p, dsz, ba.as<int64_t>(), a_size, a_sl);
         std::string verdict = "ok";
         if (a_size && memcmp(ba.p, av.data(), a_size * a_sl * 8)) verdict = "FAIL C18 ntt120 vec_znx_dft modified its source";
@@ -365,6 +378,7 @@ STREAM(md_ntt) {
         } else {
           vec_znx_idft_tmp_a(mod, (VEC_ZNX_BIG*)big.p, rsz, (VEC_ZNX_DFT*)dft.p, dsz);
         }
+        if (!nsnap.same(mod) && verdict == "ok") verdict = "FAIL C18 an NTT120 transform modified the module or one of its tables (tables must be immutable after creation)";
         const __int128* r = big.as<__int128>();
         for (uint64_t i = 0; i < rsz && verdict == "ok"; i++)
           for (uint64_t j = 0; j < n; j++) {
